@@ -67,3 +67,40 @@ Definition wf_msgb (m : msg) : bool :=
   (len (m_std m) <=? 65535) && (len (m_std m) =? std_ext_header_size (m_std m) + blen (m_payload m))
   && (m_timestamp m <? 4294967296) && (has_timestamp (m_std m) || (m_timestamp m =? 0))
   && Bool.eqb (is_some (m_ext m)) (has_ext_hdr (m_std m)) && (m_reception_us m / 1000000 <? 4294967296).
+
+(* ------------------------------------------------------------------ the `-o` path
+   State of a path of the file system: None = absent, Some content = a regular file with that content.
+   Output thread t4 of convert.rs: `std::fs::File::create(s)` wrapped into a BufWriter; one `msg.to_write(file)?` per
+   message received; `flush` at the end (and on drop when a `?` leaves the closure early).  The file is written
+   sequentially from offset 0; a write into a file replaces the bytes at the write position and leaves what lies beyond the
+   last byte written (only opening with `truncate` discards the old content). *)
+Definition fs_path := option bytes.
+
+(* the content a file opened for writing (position 0, created when absent) starts with *)
+Definition open_for_write (truncate : bool) (prior : fs_path) : bytes :=
+  if truncate then [] else match prior with Some c => c | None => [] end.
+
+(* sequential writes of [b] from offset 0 into a file holding [c] *)
+Definition overwrite (c b : bytes) : bytes := b ++ skipn (length b) c.
+
+(* std::fs::File::create = OpenOptions::new().write(true).create(true).truncate(true) *)
+Definition FILE_CREATE_TRUNCATES : bool := true.
+
+(* the `-o` path after `adlt convert <in> -o <path>`, [prior] = its state before the command, [data] = content of <in>.
+   When a to_write returns Err the bytes written so far reach the file through the BufWriter's drop. *)
+Definition convert_o_path (prior : fs_path) (data : bytes) : res fs_path :=
+  match convert_o data with
+  | Ok (WOk b) => Ok (Some (overwrite (open_for_write FILE_CREATE_TRUNCATES prior) b))
+  | Ok (WErr p) => Ok (Some (overwrite (open_for_write FILE_CREATE_TRUNCATES prior) p))
+  | Panic s => Panic s
+  | OutOfFuel => OutOfFuel
+  end.
+
+(* the same path written by several commands in a row (inputs [datas], in this order); the state after every command *)
+Fixpoint convert_o_chain (prior : fs_path) (datas : list bytes) : list (res fs_path) :=
+  match datas with
+  | [] => []
+  | d :: r =>
+      let p := convert_o_path prior d in
+      p :: convert_o_chain (match p with Ok s => s | _ => prior end) r
+  end.
